@@ -12,7 +12,7 @@
 From Coq Require Import Permutation.
 From SC Require Import Lib.Prelude Lib.Int Lib.Host Model.Nft Run.NftCommon Proofs.NftMaps Proofs.NftFrame
   Proofs.NftInv Proofs.NftCons Proofs.NftOwn Proofs.NftSim Proofs.NftCard Proofs.NftEnum Run.C10 Proofs.C10Card
-  Proofs.C10Sim Proofs.C10Monitor Proofs.C10Final Model.NftBits Proofs.NftBits.
+  Proofs.C10Sim Proofs.C10Monitor Proofs.C10Final Model.NftBits Proofs.NftBits Model.NftBitsRun Proofs.NftBitsRun.
 Local Open Scope N_scope.
 
 (* Each flavour refines the plain ownership map: owner_of i = abs i for EVERY id i (an error
@@ -197,13 +197,33 @@ Theorem C10_bits_refine_marks : forall b c s, 0 < W b -> 0 < I b -> ids_in_bucke
 Proof. exact bits_refine_marks. Qed.
 Print Assumptions C10_bits_refine_marks.
 
-(* The executable monitor accepts every trace of the model whose mints are fresh and whose
-   queries are well-formed ([wf_run]: a boolean over calls and query shapes - in `full` mode the
-   queried ids are duplicate-free and cover the existing tokens; the enumerations are queried
-   two indices beyond their end). *)
-Theorem C10_monitor_accepts_model : forall fl c now0 full (l : list (call * obs)),
+(* The consecutive contract executed call by call on the bit-level buckets (Model/NftBitsRun.v: owner_of
+   scans the stored words, set_ownership_in_bucket rewrites one word) refines the set-level run the other
+   theorems are about, for EVERY call sequence: same state (all non-bucket storage), same outcome of every
+   call, same owner_of answer for every id, and the set bits of the stored buckets are exactly the marks.
+   Hence every set-level theorem above (C10_consec_refines_map, C10_frame, C10_consec_inv, C10_owner_can_transfer, C10_owner_can_burn)
+   holds verbatim for the bit-level run.  W = word width, I = items per bucket, any positive values with
+   IDS_IN_BUCKET = I * W. *)
+Theorem C10_bits_run_refines_set_run : forall b c now0 cs,
+  0 < W b /\ 0 < I b /\ ids_in_bucket c = I b * W b ->
+  let sb := run_b b c (init_b now0) cs in
+  let s := run FCons c (init now0) cs in
+  fst sb = s /\
+  outcomes_b b c (init_b now0) cs = outcomes_s c (init now0) cs /\
+  (forall id, cons_owner_of_b b sb id = owner_of FCons c s id) /\
+  (forall m, bit_at b (snd sb) m = true <-> In m (marks s)).
+Proof. exact bits_run_refines_set_run. Qed.
+Print Assumptions C10_bits_run_refines_set_run.
+
+(* The executable check accepts every trace of the model whose mints are fresh and whose queries are
+   well-formed ([wf_run]: a boolean over calls and query shapes - in `full` mode the queried ids are
+   duplicate-free and cover the existing tokens; the enumerations are queried two indices beyond their
+   end): empty diff against the set-level model, empty diff against the bit-level replay (outcomes,
+   owner_of, raw bucket words), monitor true. *)
+Theorem C10_monitor_accepts_model : forall fl c b now0 full (l : list (call * obs)) (shapes : list bdump),
   wf_run fl c full (init now0) l = true ->
-  check (model_trace fl c now0 full l) = (0, 0, 0).
+  (fl = FCons -> bcfg_okb b c = true) ->
+  check (model_btrace fl c b now0 full l shapes) = (0, 0, 0).
 Proof. exact c10_check_accepts_model. Qed.
 Print Assumptions C10_monitor_accepts_model.
 
@@ -324,4 +344,18 @@ Example C10_monitor_rejects_stuck_token :
     [(MintSeq 0, Ok (Some 0), ob 1 [(0, Some 0); (1, None)] [(0, 1); (1, 0)]);
      (Transfer [1] 1 0 0, Fail, ob 1 [(0, Some 0); (1, None)] [(0, 1); (1, 0)]);
      (Transfer [1] 0 1 0, Fail, ob 1 [(0, Some 0); (1, None)] [(0, 1); (1, 0)])]) = 0.
+Proof. vm_compute. repeat split. Qed.
+
+(* the bit-level diff is not vacuous: a wrong raw word (LSB-first mask), a missing bucket, and an owner_of
+   answer that the bit-level scan does not give are flagged although outcomes agree *)
+Example C10_bit_level_diff_rejects :
+  let c := Build_cfg (Build_hostcfg 1 1000) 3200 32000 in
+  let b := Build_bcfg 32 100 in
+  let ob := mkObs 3 [(0, Some 0); (1, Some 0); (2, Some 0); (3, None)] [(0, 3)] [] [] 0 [] [] in
+  let t := mkTrace FCons c 10 true [(BatchMint 0 3, Ok (Some 2), ob)] in
+  check (mkBTrace t b [[(0, Some (100, [(0, 536870912)])); (1, None)]]) = (0, 0, 0) /\
+  fst (fst (check (mkBTrace t b [[(0, Some (100, [(0, 4)])); (1, None)]]))) = 1 /\
+  fst (fst (check (mkBTrace t b [[(0, None); (1, None)]]))) = 1 /\
+  fst (fst (check (mkBTrace t b [[(0, Some (99, [(0, 536870912)])); (1, None)]]))) = 1 /\
+  fst (fst (check (mkBTrace t (Build_bcfg 32 99) [[(0, Some (100, [(0, 536870912)])); (1, None)]]))) = 1.
 Proof. vm_compute. repeat split. Qed.
